@@ -338,4 +338,45 @@ example : ∀ kv ∈ [(str% "HexNAc", Num.ofInt 4), (str% "Hex", Num.ofInt 5), (
     kv.1 ∈ namesSorted MONO ∧ (kv.1 = str% "Neu" → (match kv.2.show with | 53 :: _ => false | _ => true) = true) := by
   decide +kernel
 
+/-! ## the separated form (`sep` = one character that is not part of a number) -/
+
+/-- with a separator the text is split at every separator and read as name, count, name, count, …; the vocabulary is
+not consulted and a repeated key is *accumulated* (`foldSep`), unlike in the unseparated form -/
+theorem glycan_parse_write_sep_fold (mono : List Entry) (c : Nat) (g : Comp)
+    (hc : (isDigit c || c == 45 || c == 46) = false) (hk : ∀ kv ∈ g, c ∉ kv.1) (hv : ∀ kv ∈ g, NumOK kv.2) :
+    parseGlycan mono (writeGlycan g [c]) [c] = .ok (foldSep [] g) := by
+  unfold parseGlycan
+  cases g with
+  | nil => rfl
+  | cons kv r =>
+    have hne : (writeGlycan (kv :: r) [c]).isEmpty = false := by
+      cases r <;> simp [writeGlycan, intercalate]
+    have hsep : ([c] != ([] : Str)) = true := by simp
+    rw [hne]
+    simp only [Bool.false_eq_true, if_false, hsep, if_true]
+    rw [splitOn_write c (kv :: r) (by simp), splitFold_tokens (kv :: r) [] hv]
+    intro kv' hkv'
+    refine ⟨hk kv' hkv', ?_⟩
+    intro hmem
+    have := (hv kv' hkv').chars c hmem
+    rw [hc] at this
+    cases this
+
+/-- round trip of the separated form: any keys without the separator, pairwise different -/
+theorem glycan_parse_write_sep (mono : List Entry) (c : Nat) (g : Comp)
+    (hc : (isDigit c || c == 45 || c == 46) = false) (hk : ∀ kv ∈ g, c ∉ kv.1) (hv : ∀ kv ∈ g, NumOK kv.2)
+    (hd : (g.map (·.1)).Nodup) :
+    parseGlycan mono (writeGlycan g [c]) [c] = .ok g := by
+  rw [glycan_parse_write_sep_fold mono c g hc hk hv, foldSep_distinct g [] (by simpa [gkeys] using hd)]
+  rfl
+
+example : writeGlycan [(str% "HexNAc", Num.ofInt 2), (str% "Neu", Num.ofInt 5), (str% "Ac", ⟨1/2, true⟩)] [32] =
+    str% "HexNAc 2 Neu 5 Ac 0.5" := by decide +kernel
+
+/-- a repeated key is accumulated in the separated form (and assigned in the unseparated one, see
+`glycan_parse_repeated_key_assigns`) -/
+theorem glycan_parse_sep_repeated_key_accumulates :
+    parseGlycan MONO (str% "Hex 2 Fuc 1 Hex 3") [32] = .ok [(str% "Hex", Num.ofInt 5), (str% "Fuc", Num.ofInt 1)] := by
+  decide +kernel
+
 end C15Glycan
